@@ -761,6 +761,140 @@ def write_job(lengths, op, form='nested', touch=False):
     return path
 
 
+def vector_write_job(lengths, op, form='nested', width=2):
+    """one write to a ragged array whose elements are vectors (frames x width) against the list-of-2-D-rows model"""
+    lengths = list(lengths)
+    n = len(lengths)
+    N = sum(lengths)
+
+    def mkarr(x, concrete):
+        return np.array(x, dtype=int) if concrete else funcs.np_array(x, dtype=int)
+
+    def mk(cell, concrete):
+        ra = RA()
+        rows = []
+        k = 0
+        for ln in lengths:
+            rows.append([[cell(k + j, w) for w in range(width)] for j in range(ln)])
+            k += ln
+        if form == 'nested':
+            a = ra.RaggedArray([mkarr(r, concrete) for r in rows])
+        else:
+            a = ra.RaggedArray(mkarr([f for r in rows for f in r], concrete), lengths=list(lengths))
+        return a, rows
+
+    def apply(a, rows, P, concrete):
+        ra = RA()
+        kind = op[0]
+        if kind == 'frame':                       # a[i, j] = vector
+            _, i, j = op
+            v = [P(w) for w in range(width)]
+            a[i, j] = mkarr(v, concrete)
+            rows[i][j] = list(v)
+        elif kind == 'row':                       # a[i] = (len x width) array
+            _, i = op
+            new = [[P(q * width + w) for w in range(width)] for q in range(len(rows[i]))]
+            a[i] = mkarr(new, concrete)
+            rows[i] = new
+        elif kind == 'slice2d-scalar':
+            _, rs, cs = op
+            for t in list(range(n))[rs]:
+                for c in list(range(len(rows[t])))[cs]:
+                    rows[t][c] = [P(0)] * width
+            a[rs, cs] = P(0)
+        elif kind == 'append':
+            _, lens = op
+            new = []
+            k = 0
+            for ln in lens:
+                new.append([[P((k + q) * width + w) for w in range(width)] for q in range(ln)])
+                k += ln
+            a.append([mkarr(r, concrete) for r in new])
+            rows.extend(new)
+        elif kind == 'append-ra':
+            _, lens = op
+            new = []
+            k = 0
+            for ln in lens:
+                new.append([[P((k + q) * width + w) for w in range(width)] for q in range(ln)])
+                k += ln
+            a.append(ra.RaggedArray([mkarr(r, concrete) for r in new]))
+            rows.extend(new)
+        elif kind == 'iadd':
+            a += P(0)
+            for r in rows:
+                for f in r:
+                    for w in range(width):
+                        f[w] = f[w] + P(0)
+        else:
+            raise ValueError(op)
+        return a
+
+    def coherent(a, rows):
+        flat = [c for r in rows for f in r for c in f]
+        obs = []
+
+        def eqs(got, exp):
+            return conj([x == y for x, y in zip(got, exp)]) if len(got) == len(exp) else False
+        obs.append(('_data-is-the-concatenation-of-model-rows', eqs(flat_cells(a._data), flat)))
+        obs.append(('_data-keeps-the-element-width', tuple(a._data.shape) == (len(flat) // width, width)))
+        obs.append(('lengths', [int(x) for x in cells(a.lengths)] == [len(r) for r in rows]))
+        ok = len(a._array) == len(rows)
+        obs.append(('_array-rows-equal-model-rows',
+                    conj([eqs(flat_cells(a._array[i]), [c for f in rows[i] for c in f]) for i in range(len(rows))]) if ok else False))
+        obs.append(('_array-rows-keep-their-shape',
+                    all(tuple(np.shape(a._array[i])) == (len(rows[i]), width) for i in range(len(rows))) if ok else False))
+        obs.append(('row-reads-equal-model-rows',
+                    conj([eqs(flat_cells(a[i]), [c for f in rows[i] for c in f]) for i in range(len(rows))]) if ok else False))
+        el = []
+        try:
+            for r in range(len(rows)):
+                for c in range(len(rows[r])):
+                    el.append(eqs(flat_cells(a[r, c]), rows[r][c]))
+            obs.append(('(row, frame) reads equal the model', conj(el)))
+        except IndexError:
+            obs.append(('(row, frame) reads equal the model', False))
+        return obs
+
+    def path(ctx):
+        toks = {}
+
+        def tok(k, w):
+            if (k, w) not in toks:
+                toks[(k, w)] = core.fresh_int('e')
+            return toks[(k, w)]
+        ops = [core.fresh_int('v') for _ in range(12)]
+        a, rows = mk(tok, False)
+        exc = None
+        try:
+            a = apply(a, rows, lambda k: ops[k], False)
+        except Exception as e:
+            exc = e
+
+        def witness(model):
+            ov = [int(ev(model, t)) for t in ops]
+            out = {'inputs': {'lengths': lengths, 'form': form, 'element_width': width, 'op': repr(op), 'operands': ov[:4]},
+                   'skip_compare': True}
+            with core.concrete_mode():
+                a2, rows2 = mk(lambda k, w: 100 + 10 * k + w, True)
+                try:
+                    a2 = apply(a2, rows2, lambda k: ov[k], True)
+                    bad = run_oracle(coherent(a2, rows2))
+                except Exception as e:
+                    out.update(out=repr(e)[:200], exception=repr(e), violated=['write raises %s' % type(e).__name__],
+                               signature='vector-write:%s:raises-%s' % (op[0], type(e).__name__))
+                    return out
+            out['out'] = [np.asarray(r).tolist() for r in a2._array]
+            out['violated'] = bad
+            out['signature'] = 'vector-write:%s:incoherent-views' % op[0]
+            return out
+        if exc is not None:
+            return PathOut([('write-does-not-raise', False)], {}, witness, exc=type(exc).__name__,
+                           desc='vector write %r raises %s: %s' % (op, type(exc).__name__, str(exc)[:80]))
+        return PathOut(coherent(a, rows), {}, witness, desc='vector write %r lengths=%s' % (op, lengths))
+    return path
+
+
 def operator_job(lengths, opname, other='ra'):
     """binary operator between ragged arrays / with a scalar: element-wise, structure kept, new object, operands intact"""
     import operator as O
